@@ -83,6 +83,10 @@ def run(chk):
             (2, "ppphhh", "ijkabc"), (1, "ph", "ia"), (1, "pphh", "klcd"),
             (2, "pphh", "jiba"), (2, "ph", "kc")]
     reqs += [(3, "ph", "ia")]
+    # the last base letters of each space (a summation index inside the
+    # operators must not be one of the plain names a caller may use)
+    reqs += [(1, "ph", "oh"), (2, "ph", "oh"), (2, "pphh", "noab"),
+             (2, "ph", "ng")]
     if not quick:
         reqs += [(3, "pphh", "ijab"), (3, "ppphhh", "ijkabc"),
                  (2, "ppphhh", "kjicba"), (3, "ph", "i3a3"),
